@@ -139,7 +139,9 @@ Definition C27_mismatch (c : c27_case) : bool :=
                   Decode (Encode v) = v;
    (truncation)   mode 0: no strict prefix was accepted; mode 1: Decode returned an error;
    (allocation)   every mode: the bytes allocated by Decode stay under the ceiling
-                  base + per_byte * |input| that the declared bounds permit. *)
+                  base + per_byte * |input| that the declared bounds permit — also when a
+                  huge count is written over any position of an encoding (inflation sweep);
+   (bounds)       every mode: whatever Decode returned is within the declared bounds. *)
 
 Definition alloc_under (base per_byte : N) (c : c27_case) : bool :=
   (c_alloc c <=? base + per_byte * blen (c_data c))
@@ -155,9 +157,12 @@ Definition alloc_under (base per_byte : N) (c : c27_case) : bool :=
 Definition prefix_must_fail (hdr : option N) (k : N) : bool :=
   match hdr with None => true | Some h => k <? h end.
 
-Definition monitor_eq {A} (eqb : A -> A -> bool) (in_bounds : A -> bool) (hdr : option N)
+(* [res_ok]: the declared bounds of the codec, asked of whatever Decode returned on
+   any input (a decoder that lets a 257-element slice through allocated beyond them) *)
+Definition monitor_eq {A} (eqb : A -> A -> bool) (in_bounds res_ok : A -> bool) (hdr : option N)
            (base per_byte : N) (c : c27_case) (v res : option A) : N :=
   if negb (alloc_under base per_byte c) then 1
+  else if negb (match res with Some y => res_ok y | None => true end) then 1
   else match c_mode c with
        | 0 =>
          match v with
@@ -172,7 +177,8 @@ Definition monitor_eq {A} (eqb : A -> A -> bool) (in_bounds : A -> bool) (hdr : 
        | 1 => if prefix_must_fail hdr (blen (c_data c)) && negb (is_none res) then 1 else 0
        | _ => 0
        end.
-Definition monitor_codec {A} (f : fmt A) (in_bounds : A -> bool) := monitor_eq (veqb f) in_bounds None.
+Definition monitor_codec {A} (f : fmt A) (in_bounds : A -> bool) := monitor_eq (veqb f) in_bounds (wf f) None.
+Definition any {A} (x : A) : bool := true.
 
 (* ---- channels codec: struct fields the wire does not carry ------------------------------------
    KNOWN FINDING C27-K1 (code 2): Message.SyncOnce, Record.SyncOnce and
@@ -278,12 +284,12 @@ Definition C27_monitor (c : c27_case) : N :=
   | PReplResult v res =>
     monitor_codec exchangeBatchResult (in_frame exchangeBatchResult) ReplAllocBase ReplAllocPerByte c v (eff_res c v res)
   | PProposePayload v res =>
-    monitor_eq pair_eqb (fun x => (fst x <? 65536) && all_bytes (snd x)) (Some 3)
+    monitor_eq pair_eqb (fun x => (fst x <? 65536) && all_bytes (snd x)) any (Some 3)
                EnvelopeAllocBase EnvelopeAllocPerByte c v (eff_res c v res)
   | PForward v res =>
-    monitor_eq forward_eqb forward_wf None EnvelopeAllocBase EnvelopeAllocPerByte c v (eff_res c v res)
+    monitor_eq forward_eqb forward_wf any None EnvelopeAllocBase EnvelopeAllocPerByte c v (eff_res c v res)
   | PNetHeader wv wk v res =>
-    monitor_eq bytes_eqb (fun x => (wv <? 256) && (wk <? 256) && all_bytes x) (Some 2)
+    monitor_eq bytes_eqb (fun x => (wv <? 256) && (wk <? 256) && all_bytes x) any (Some 2)
                EnvelopeAllocBase EnvelopeAllocPerByte c v (eff_res c v res)
   | PChPull v res => monitor_frame f_pull same c v (eff_res c v res)
   | PChPullBatch v res => monitor_frame f_pull_batch same c v (eff_res c v res)
